@@ -3,6 +3,7 @@
 seed directory (tools/kill_matrix.sh on a scratch copy of /repo HEAD)."""
 import json, os, shutil, subprocess, sys, glob
 out = '/verif/seeded'
+NOTES = {'C13r3-b': 'confirmed at f18d1db, the tree the sub-agent worked on. It cooperated with the defect F13 of the unchanged code (a postponed deferred dump re-registered without a deadline). On the repaired tree (3f851bc) every registration arms the deadline, a refresh without re-arming is harmless (the handler of a reached deadline re-arms when the event is not due), the demo passes with the patch applied and C13.L11 is - correctly - silent on it.'}
 PORTED = {'C04-b': 'ported_C04b_narrow_lock.diff', 'C13-a': 'ported_C13a_request_flag.diff', 'C14-b': 'ported_C14b_reserved_id_guard.diff'}
 # import round 2
 for pid in ['C02','C03','C04','C05','C06','C07','C08','C10','C11','C12','C13','C14','C15','C16','C17']:
@@ -42,6 +43,8 @@ for d in sorted(glob.glob(out + '/C*-*')):
     props = sorted({x.split('.')[0] for x in rules})
     meta = json.load(open(d + '/meta.json'))
     meta['caught_by_rules'] = rules
+    if sid in NOTES:
+        meta['note'] = NOTES[sid]
     meta['caught_by_checks'] = props
     meta['caught_by_own_property_check'] = pid in props
     json.dump(meta, open(d + '/meta.json', 'w'), indent=1)
